@@ -1,4 +1,6 @@
 import St4sd.Lemmas.C18Confine
+import St4sd.Lemmas.C18Keys
+import St4sd.Lemmas.C18Stagers
 /-!
 # C18 — Staging and deployment never write outside their target directory
 
@@ -352,6 +354,250 @@ theorem deployAllWith_under (target : Path) (es : List Entry) :
       | none => exact ih st1
       | some x => rfl
 
+/-! ### manifest keys as TEXT: alias spellings, destinations that already exist, histories of deployments
+
+`Model/C18Keys.lean`: `shared`, `shared/`, `./shared`, `shared//`, `shared/.` are different dictionary keys and name
+the same entry of the instance directory; an instance directory may be deployed into more than once, with a
+manifest that changed in between (an entry switched from `:link` to `:copy`), and may hold links before the first
+deployment.  None of this is a hypothesis below: the theorems quantify over all key texts, all lists of
+deployments and all initial states in which the instance directory exists (with its ancestors) and holds no hard
+link to the outside. -/
+
+/-- **alias_manifest_confined**: loading + deployment of *every* manifest, keys taken as text (any spelling, any
+two spellings of one entry, any order, copy and link entries), creates or modifies only locations under the
+instance directory and leaves every other location as it was — in particular the directory an entry was linked
+to earlier in the same manifest. -/
+theorem alias_manifest_confined (target : Path) (fs : Fs) (es : List KEntry)
+    (hanc : ∀ q, q <:+ target → q ≠ [] → fs.get q ≠ none)
+    (hfiles : ∀ p ino, target <:+ p → fs.get p = some (Node.file ino) → target <:+ ino) :
+    (∀ p ∈ (loadAndDeployK true target ⟨fs, []⟩ es).1.log, target <:+ p) ∧
+    (∀ q, ¬ target <:+ q → (loadAndDeployK true target ⟨fs, []⟩ es).1.fs.get q = fs.get q) := by
+  have hg0 : DGood target fs ⟨fs, []⟩ := ⟨(by intro p hp; cases hp), (by intro q _; rfl), hanc, hfiles⟩
+  have := deployStep_good (d := ⟨es, true⟩) hg0 (st' := (loadAndDeployK true target ⟨fs, []⟩ es).1)
+    (x := (loadAndDeployK true target ⟨fs, []⟩ es).2) (by simp [deployStep])
+  exact ⟨this.log, this.frame⟩
+
+/-- **deploy_history_confined**: any number of deployments into the same instance directory, one after the
+other, each with its own manifest (validated at load or not), each continuing from whatever the previous one
+left (deployed, rejected, stopped half-way): everything created or modified over the whole history lies under
+the instance directory, every other location is as it was before the first deployment.  No hypothesis on the
+links the instance directory holds initially or acquires on the way. -/
+theorem deploy_history_confined (target : Path) (fs : Fs) (ds : List Deployment)
+    (hanc : ∀ q, q <:+ target → q ≠ [] → fs.get q ≠ none)
+    (hfiles : ∀ p ino, target <:+ p → fs.get p = some (Node.file ino) → target <:+ ino) :
+    (∀ p ∈ (deployHistory true target ⟨fs, []⟩ ds).1.log, target <:+ p) ∧
+    (∀ q, ¬ target <:+ q → (deployHistory true target ⟨fs, []⟩ ds).1.fs.get q = fs.get q) := by
+  have hg0 : DGood target fs ⟨fs, []⟩ := ⟨(by intro p hp; cases hp), (by intro q _; rfl), hanc, hfiles⟩
+  have := deployHistory_good ds _ hg0
+  exact ⟨this.log, this.frame⟩
+
+/-- a key without trailing separator and without final `.` component is handled exactly as its parsed form
+(`./a`, `a//b`, `a/./b` are the entries `a`, `a/b`, `a/b`): the text model extends `deployOne`, it does not
+replace it -/
+theorem deployOneK_plain (guard : Bool) (target : Path) (st : St) (e : KEntry)
+    (h1 : endsWithDot e.key = false) (h2 : endsWithSep e.key = false) :
+    deployOneK guard target st e = deployOne guard target st e.entry := by
+  simp [deployOneK, h1, h2]
+
+/-- **copy_entry_never_merges**: a copy entry that is deployed (no error) has created its destination directory
+in this very step — the destination did not exist before, neither as a directory, nor as a file, nor as a LINK.
+So a copy entry is never merged into what an earlier entry, an earlier deployment or anybody else put there; an
+entry whose destination exists is answered with an error. -/
+theorem copy_entry_never_merges (target : Path) (st st' : St) (e : Entry) (hm : e.method = Method.copy)
+    (h : deployOne true target st e = (st', none)) :
+    ∃ par s, st.fs.get (s :: par) = none ∧ st'.fs.get (s :: par) = some Node.dir ∧ (s :: par) ∈ st'.log := by
+  unfold deployOne at h
+  split at h
+  · cases h
+  · split at h
+    · cases h
+    · split at h
+      · rename_i parents s hsplit
+        split at h
+        · cases h
+        · rename_i base rest blocked hwalk
+          split at h
+          · cases h
+          · split at h
+            · cases h
+            · rw [hm] at h
+              simp only at h
+              cases hmk : mkChain st base rest with
+              | mk st1 par =>
+                simp only [hmk] at h
+                split at h
+                · cases h
+                · rename_i hfree
+                  have hnone : st1.fs.get (s :: par) = none := by
+                    cases hh : st1.fs.get (s :: par) <;> simp_all
+                  cases h
+                  refine ⟨par, s, mkChain_get_none _ _ _ _ _ _ hmk hnone, ?_, ?_⟩
+                  · show ((st1.fs.put (s :: par) Node.dir).put (['f'] :: s :: par) _).get (s :: par) = _
+                    rw [get_put, get_put]
+                    simp
+                  · simp
+      · cases h
+
+/-- the same for a key in any spelling -/
+theorem copy_entry_never_merges_any_spelling (target : Path) (st st' : St) (e : KEntry)
+    (hm : e.method = Method.copy) (h : deployOneK true target st e = (st', none)) :
+    ∃ par s, st.fs.get (s :: par) = none ∧ st'.fs.get (s :: par) = some Node.dir ∧ (s :: par) ∈ st'.log := by
+  have hm' : e.entry.method = Method.copy := hm
+  unfold deployOneK at h
+  simp only at h
+  split at h
+  · split at h
+    · cases h
+    · split at h
+      · cases h
+      · split at h
+        · cases h
+        · split at h
+          · cases h
+          · rw [hm] at h
+            simp only at h
+            split at h
+            · cases h
+            · exact copy_entry_never_merges target st st' e.entry hm' h
+  · split at h
+    · rename_i hc
+      simp [hm] at hc
+    · exact copy_entry_never_merges target st st' e.entry hm' h
+
+/-- **copy_onto_existing_entry_rejected**: a copy entry for a top-level name that already exists in the instance
+directory — e.g. as the link an earlier entry `name: <elsewhere>:link` created — is answered with an error and
+touches nothing, whatever the spelling of its key (`name`, `name/`, `./name`, `name//`, `name/.` …) -/
+theorem copy_onto_existing_entry_rejected (target : Path) (st : St) (k : S) (s : S) (src : List Seg)
+    (hk : parsePath k = ⟨false, [Seg.name s]⟩) (hex : (st.fs.get (s :: target)).isSome = true) :
+    ∃ x, deployOneK true target st ⟨k, src, Method.copy⟩ = (st, some x) := by
+  cases hr : deployOneK true target st ⟨k, src, Method.copy⟩ with
+  | mk st' r =>
+    cases r with
+    | none =>
+      exfalso
+      -- the only way to be deployed is through `deployOne` on the parsed key, which finds the destination
+      have key : deployOne true target st ⟨⟨false, [Seg.name s]⟩, src, Method.copy⟩ =
+          (st, some Err.os) := by
+        simp [deployOne, allNames, isName, splitLastSeg, walk, fuel0, under, extend, mkChain, hex]
+      unfold deployOneK at hr
+      simp only [KEntry.entry, hk] at hr
+      split at hr
+      · split at hr
+        · cases hr
+        · split at hr
+          · cases hr
+          · split at hr
+            · cases hr
+            · split at hr
+              · cases hr
+              · split at hr
+                · cases hr
+                · rw [key] at hr; cases hr
+      · split at hr
+        · rename_i hc; simp at hc
+        · rw [key] at hr; cases hr
+    | some x =>
+      refine ⟨x, ?_⟩
+      -- an error leaves the state as it was: every error branch of a top-level copy entry returns `st`
+      have key : deployOne true target st ⟨⟨false, [Seg.name s]⟩, src, Method.copy⟩ =
+          (st, some Err.os) := by
+        simp [deployOne, allNames, isName, splitLastSeg, walk, fuel0, under, extend, mkChain, hex]
+      unfold deployOneK at hr
+      simp only [KEntry.entry, hk] at hr
+      split at hr
+      · split at hr
+        · cases hr; rfl
+        · split at hr
+          · cases hr; rfl
+          · split at hr
+            · cases hr; rfl
+            · split at hr
+              · cases hr; rfl
+              · split at hr
+                · cases hr; rfl
+                · rw [key] at hr; cases hr; rfl
+      · split at hr
+        · rename_i hc; simp at hc
+        · rw [key] at hr; cases hr; rfl
+
+/-! ### two components staging archives at the same time
+
+`Model/C18Stagers.lean`: two extractions interleaved member by member under an arbitrary schedule, on one shared
+file system; each stager extracts into its own ABSOLUTE working directory and owns nothing but (`dest`, members
+left, log, answer). -/
+
+/-- **stager_step_confined**: at every single step — whatever happened before, whatever the other stager did to
+its own directory in the meantime — the member a stager extracts is logged under the stager's OWN working
+directory and no location outside that directory changes (so nothing in the other stager's directory). -/
+theorem stager_step_confined (d : Path) (fs : Fs) (s : Stager) (hs : Safe d fs) (hg : SGood d s) :
+    (∀ p ∈ (s.step fs).2.log, d <:+ p) ∧ (∀ q, ¬ d <:+ q → (s.step fs).1.get q = fs.get q) ∧
+    Safe d (s.step fs).1 := by
+  obtain ⟨h1, h2, h3⟩ := stager_step_good hs hg (fs' := (s.step fs).1) (s' := (s.step fs).2) rfl
+  exact ⟨h1.log, h3, h2⟩
+
+/-- **stagers_confined**: for *every* schedule, every pair of archives and every pair of working directories
+neither of which lies in the other (`Apart`), both `Safe` initially: everything the first stager creates or
+modifies lies under the first working directory and not under the second, and vice versa; no location outside
+the two working directories changes; both directories stay `Safe`.  Accepted, rejected or failing half-way. -/
+theorem stagers_confined (fs : Fs) (dA dB : Path) (msA msB : List Member) (sched : List Bool)
+    (hap : Apart dA dB) (hA : Safe dA fs) (hB : Safe dB fs) :
+    (∀ p ∈ (runStagers fs dA dB msA msB sched).a.log, dA <:+ p ∧ ¬ dB <:+ p) ∧
+    (∀ p ∈ (runStagers fs dA dB msA msB sched).b.log, dB <:+ p ∧ ¬ dA <:+ p) ∧
+    (∀ q, ¬ dA <:+ q → ¬ dB <:+ q → (runStagers fs dA dB msA msB sched).fs.get q = fs.get q) ∧
+    Safe dA (runStagers fs dA dB msA msB sched).fs ∧ Safe dB (runStagers fs dA dB msA msB sched).fs := by
+  have h0 : WGood dA dB fs { fs := fs, a := Stager.init dA msA, b := Stager.init dB msB } :=
+    ⟨sgood_init dA msA, sgood_init dB msB, hA, hB, fun _ _ _ => rfl⟩
+  have hw := world_finish_good hap (world_sched_good hap sched _ h0)
+  refine ⟨?_, ?_, hw.frame, hw.safeA, hw.safeB⟩
+  · intro p hp
+    have := hw.a.log p hp
+    exact ⟨this, apart_under hap this⟩
+  · intro p hp
+    have := hw.b.log p hp
+    exact ⟨this, apart_under' hap this⟩
+
+private theorem step_idle (fs : Fs) (s : Stager) (h : s.todo = []) : s.step fs = (fs, s) := by
+  simp [Stager.step, h]
+
+private theorem drain_idle (fs : Fs) (s : Stager) (h : s.todo = []) : s.drain fs = (fs, s) := by
+  simp [Stager.drain, h]
+
+private theorem sched_first_idle (sched : List Bool) :
+    ∀ (w : World), w.a.todo = [] → (sched.foldl World.step w).a = w.a := by
+  induction sched with
+  | nil => intro w _; rfl
+  | cons x r ih =>
+    intro w h
+    simp only [List.foldl_cons]
+    have : (w.step x).a = w.a := by
+      cases x with
+      | true => simp only [World.step, if_true]
+      | false => simp only [World.step, Bool.false_eq_true, if_false, step_idle w.fs w.a h]
+    rw [ih _ (by rw [this]; exact h), this]
+
+/-- an offending archive is rejected before anything is touched, also when another component is staging at the
+same time: under every schedule the stager of a rejected archive ends with the answer `rejected` and an empty
+log (and, by `stagers_confined`, the other stager's log lies in its own directory) -/
+theorem stager_rejected_touches_nothing (fs : Fs) (dA dB : Path) (msA msB : List Member) (sched : List Bool)
+    (h : checkFixed dA msA = false) :
+    (runStagers fs dA dB msA msB sched).a.log = [] ∧
+    (runStagers fs dA dB msA msB sched).a.res = some Err.rejected := by
+  have hinit : Stager.init dA msA = { dest := dA, todo := [], log := [], res := some Err.rejected } := by
+    simp [Stager.init, h]
+  have h1 := sched_first_idle sched { fs := fs, a := Stager.init dA msA, b := Stager.init dB msB }
+    (by rw [hinit])
+  unfold runStagers World.finish
+  generalize sched.foldl World.step { fs := fs, a := Stager.init dA msA, b := Stager.init dB msB } = w at h1 ⊢
+  simp only at h1
+  have ha : w.a.todo = [] := by rw [h1, hinit]
+  rw [drain_idle _ _ ha]
+  simp only
+  cases w.b.drain w.fs with
+  | mk fs2 b1 =>
+    show w.a.log = [] ∧ w.a.res = some Err.rejected
+    rw [h1, hinit]
+    exact ⟨rfl, rfl⟩
+
 /-! ### the hypotheses are satisfiable and the statements are not vacuous -/
 
 /-- sandbox used in the examples: `/i/w` is the working directory, `/o` is outside -/
@@ -433,5 +679,91 @@ example :
     (loadAndDeploy true exDest ⟨exFs, []⟩ es false).2 = none ∧
     (loadAndDeploy true exDest ⟨exFs, []⟩ es false).1.log.length = 6 := by
   decide
+
+/-! ### alias keys, histories and two stagers: the statements are not vacuous -/
+
+def kS : S := ['k']
+def kSlash : S := ['k', '/']
+def kDotSlash : S := ['.', '/', 'k']
+def kSlashDot : S := ['k', '/', '.']
+
+/-- the five spellings are one entry -/
+example : (parsePath kS, parsePath kSlash, parsePath kDotSlash, parsePath kSlashDot, parsePath ['k', '/', '/']) =
+    (⟨false, [Seg.name ['k']]⟩, ⟨false, [Seg.name ['k']]⟩, ⟨false, [Seg.name ['k']]⟩, ⟨false, [Seg.name ['k']]⟩,
+     ⟨false, [Seg.name ['k']]⟩) := by decide
+
+/-- `k` linked to `/o`, then a copy entry for the same entry in each spelling: the link is created, the copy
+entry is answered with an error, only the link was touched, `/o` holds what it held -/
+example : ∀ k ∈ [kSlash, kDotSlash, kSlashDot, ['k', '/', '/'], ['.', '/', 'k', '/']],
+    let es := [KEntry.mk kS [Seg.name ['o']] Method.link, KEntry.mk k [Seg.name ['o']] Method.copy]
+    validateK true es = true ∧
+    (loadAndDeployK true exDest ⟨exFs, []⟩ es).2 ≠ none ∧
+    (loadAndDeployK true exDest ⟨exFs, []⟩ es).1.log = [[['k'], ['w'], ['i']]] ∧
+    (loadAndDeployK true exDest ⟨exFs, []⟩ es).1.fs.get [['f'], ['o']] = none := by decide
+
+/-- spellings of a key whose entry does not exist yet are deployed like the plain key (copy), a link entry with
+a trailing separator or a final `.` is an error -/
+example :
+    (deployOneK true exDest ⟨exFs, []⟩ ⟨kSlash, [Seg.name ['o']], Method.copy⟩).2 = none ∧
+    (deployOneK true exDest ⟨exFs, []⟩ ⟨kSlashDot, [Seg.name ['o']], Method.copy⟩).2 = none ∧
+    (deployOneK true exDest ⟨exFs, []⟩ ⟨kDotSlash, [Seg.name ['o']], Method.link⟩).2 = none ∧
+    (deployOneK true exDest ⟨exFs, []⟩ ⟨kSlash, [Seg.name ['o']], Method.link⟩).2 = some Err.os ∧
+    (deployOneK true exDest ⟨exFs, []⟩ ⟨kSlash, [Seg.name ['o']], Method.link⟩).1.log = [] ∧
+    (deployOneK true exDest ⟨exFs, []⟩ ⟨kSlashDot, [Seg.name ['o']], Method.link⟩).2 = some Err.os ∧
+    (deployOneK true exDest ⟨exFs, []⟩ ⟨kSlashDot, [Seg.name ['o']], Method.link⟩).1.log = [] := by
+  decide
+
+/-- a history: the instance is deployed with `k` linked to `/o`, then again after the manifest changed to
+`k: …:copy` (first entry of the new manifest): the second deployment is answered with an error and `/o` is as
+it was; a third deployment with a key nested under the old link is rejected -/
+example :
+    let d1 : Deployment := ⟨[⟨kS, [Seg.name ['o']], Method.link⟩], true⟩
+    let d2 : Deployment := ⟨[⟨kS, [Seg.name ['o']], Method.copy⟩], true⟩
+    let d3 : Deployment := ⟨[⟨['k', '/', 'x'], [Seg.name ['o']], Method.copy⟩], false⟩
+    (deployHistory true exDest ⟨exFs, []⟩ [d1, d2, d3]).2 = [none, some Err.os, some Err.rejected] ∧
+    (deployHistory true exDest ⟨exFs, []⟩ [d1, d2, d3]).1.fs.get [['f'], ['o']] = none ∧
+    (deployHistory true exDest ⟨exFs, []⟩ [d1, d2, d3]).1.fs.get [['x'], ['o']] = none := by decide
+
+/-- every node is a directory or a regular file with its own name only: `Safe` for every directory -/
+private theorem safe_of_plain (d : Path) :
+    ∀ fs : Fs, (∀ pn ∈ fs, pn.2 = Node.dir ∨ pn.2 = Node.file pn.1) → Safe d fs
+  | [], _ => by intro p n _ h; simp [Fs.get] at h
+  | (q, m) :: r, hpl => by
+    intro p n hp hget
+    simp only [Fs.get] at hget
+    split at hget
+    · rename_i heq
+      cases hget
+      subst heq
+      rcases hpl (q, m) (List.mem_cons_self ..) with h | h
+      · simp only at h; subst h; trivial
+      · simp only at h; subst h; exact hp
+    · exact safe_of_plain d r (fun pn h => hpl pn (List.mem_cons_of_mem _ h)) p n hp hget
+
+/-- a second working directory `/i/u` next to `/i/w` -/
+def exFs2 : Fs := ([['u'], ['i']], Node.dir) :: exFs
+def exDest2 : Path := [['u'], ['i']]
+
+example : Apart exDest exDest2 ∧ Safe exDest exFs2 ∧ Safe exDest2 exFs2 :=
+  ⟨⟨by decide, by decide⟩, safe_of_plain _ _ (by decide), safe_of_plain _ _ (by decide)⟩
+
+/-- two archives with the SAME member names, extracted under three schedules (alternating, first stager first,
+second stager in the middle of the first): each stager logs its own directory only, each directory receives both
+members, nothing else changes, no error -/
+example : ∀ sched ∈ [[false, true, false, true], [], [false, true, true, false]],
+    let ms := [Member.file ⟨false, [Seg.name ['x']]⟩, Member.file ⟨false, [Seg.name ['d'], Seg.name ['y']]⟩]
+    let w := runStagers exFs2 exDest exDest2 ms ms sched
+    w.a.res = none ∧ w.b.res = none ∧ w.a.todo = [] ∧ w.b.todo = [] ∧
+    w.a.log.all (under exDest) = true ∧ w.b.log.all (under exDest2) = true ∧
+    w.a.log.length = 3 ∧ w.b.log.length = 3 ∧
+    w.fs.get [['y'], ['d'], ['w'], ['i']] = some (Node.file [['y'], ['d'], ['w'], ['i']]) ∧
+    w.fs.get [['y'], ['d'], ['u'], ['i']] = some (Node.file [['y'], ['d'], ['u'], ['i']]) ∧
+    w.fs.get [['x'], ['i']] = none := by decide
+
+/-- an archive aimed at the other component's directory (`../u/x`) is rejected while the other one is extracted -/
+example :
+    let w := runStagers exFs2 exDest exDest2 [Member.file ⟨false, [Seg.up, Seg.name ['u'], Seg.name ['x']]⟩]
+      [Member.file ⟨false, [Seg.name ['x']]⟩] [true, false]
+    w.a.res = some Err.rejected ∧ w.a.log = [] ∧ w.b.res = none ∧ w.b.log = [[['x'], ['u'], ['i']]] := by decide
 
 end St4sd.C18
